@@ -219,6 +219,27 @@ Lemma get_remove_backup_dir l w :
   fs_get l (wfs (remove_backup_dir w)) = if in_backup l then None else fs_get l (wfs w).
 Proof. unfold remove_backup_dir. cbn [emit set_fs wfs]. apply fs_get_del_where. Qed.
 
+Lemma get_move l s d w :
+  fs_get l (wfs (move s d w)) =
+  match fs_get s (wfs w) with
+  | Some f => if loc_eqb l d then Some f else if loc_eqb l s then None else fs_get l (wfs w)
+  | None => fs_get l (wfs w)
+  end.
+Proof.
+  unfold move. destruct (fs_get s (wfs w)) as [f|]; [|reflexivity].
+  cbn [emit set_fs wfs]. rewrite fs_get_set, fs_get_del. reflexivity.
+Qed.
+Lemma wrunning_move s d w : wrunning (move s d w) = wrunning w.
+Proof. unfold move. destruct (fs_get s (wfs w)); reflexivity. Qed.
+Lemma wenabled_move s d w : wenabled (move s d w) = wenabled w.
+Proof. unfold move. destruct (fs_get s (wfs w)); reflexivity. Qed.
+Lemma wlog_move s d w :
+  wlog (move s d w) = wlog w ++ (if fs_has s (wfs w) then [EWrite d] else []).
+Proof.
+  unfold move, fs_has. destruct (fs_get s (wfs w)); cbn [emit set_fs wlog];
+    [reflexivity|rewrite app_nil_r; reflexivity].
+Qed.
+
 Lemma wfs_banner c w : wfs (banner c w) = wfs w.
 Proof. destruct c; reflexivity. Qed.
 Lemma wlog_banner c w : wlog (banner c w) = wlog w.
@@ -236,6 +257,7 @@ Definition op_touches (P : loc -> bool) (cb : bool) (o : op) : bool :=
   match o with
   | OCopy _ d => P d
   | ORemove l => P l
+  | OMoveIf _ s d => P s && P d
   | ORemoveUnitReload => P SysUnit
   | ORemoveBackupDir => cb
   | _ => true
@@ -254,6 +276,11 @@ Proof.
     destruct (loc_eqb l l0) eqn:E; [|reflexivity]. apply loc_eqb_eq in E; subst. congruence.
   - destruct (version_ok runnable l0 w); inv_some S; reflexivity.
   - destruct (fs_has l0 (wfs w)); inv_some S; reflexivity.
+  - apply andb_true_iff in T. destruct T as [T1 T2].
+    destruct (fs_has guard (wfs w)); inv_some S; [|reflexivity].
+    rewrite get_move. destruct (fs_get src (wfs w)); [|reflexivity].
+    destruct (loc_eqb l dst) eqn:E; [apply loc_eqb_eq in E; subst; congruence|].
+    destruct (loc_eqb l src) eqn:E2; [apply loc_eqb_eq in E2; subst; congruence|reflexivity].
   - destruct (fs_has SysUnit (wfs w)); inv_some S; [|reflexivity].
     rewrite wfs_call, get_remove.
     destruct (loc_eqb l SysUnit) eqn:E; [|reflexivity]. apply loc_eqb_eq in E; subst. congruence.
@@ -282,6 +309,9 @@ Proof.
   - inv_some S. eexists. apply wlog_remove.
   - destruct (version_ok runnable l w); inv_some S. exists []. rewrite app_nil_r. reflexivity.
   - destruct (fs_has l (wfs w)); inv_some S. exists []. rewrite app_nil_r. reflexivity.
+  - destruct (fs_has guard (wfs w)); inv_some S.
+    + eexists. apply wlog_move.
+    + exists []. rewrite app_nil_r. reflexivity.
   - destruct (fs_has SysUnit (wfs w)); inv_some S.
     + eexists. rewrite wlog_call, wlog_remove, <- app_assoc. reflexivity.
     + exists []. rewrite app_nil_r. reflexivity.
@@ -306,6 +336,7 @@ Fixpoint ops_safe (r : bool) (ops : list op) : bool :=
   | OCall VStart :: t => ops_safe true t
   | OCopy _ d :: t => (if is_sys d then negb r else true) && ops_safe r t
   | ORemove l :: t => (if is_sys l then negb r else true) && ops_safe r t
+  | OMoveIf _ _ d :: t => (if is_sys d then negb r else true) && ops_safe r t
   | ORemoveUnitReload :: t => negb r && ops_safe r t
   | _ :: t => ops_safe r t
   end.
@@ -337,6 +368,14 @@ Proof.
     + rewrite wlog_remove, log_state_app. destruct (fs_has l (wfs w)); exact O2.
   - destruct (version_ok runnable l w); [apply IH; assumption|exact S].
   - destruct (fs_has l (wfs w)); [apply IH; assumption|exact S].
+  - (* OMoveIf *)
+    cbn [ops_safe] in O. apply andb_true_iff in O. destruct O as [O1 O2].
+    destruct (fs_has guard (wfs w)); [|apply IH; assumption].
+    apply IH.
+    + rewrite wlog_move, log_safe_app, S. cbn [andb].
+      destruct (fs_has src (wfs w)); [|reflexivity]. cbn [log_safe sys_mutation].
+      rewrite O1. reflexivity.
+    + rewrite wlog_move, log_state_app. destruct (fs_has src (wfs w)); exact O2.
   - (* ORemoveUnitReload *)
     cbn [ops_safe] in O. apply andb_true_iff in O. destruct O as [O1 O2].
     destruct (fs_has SysUnit (wfs w)) eqn:H; [|apply IH; assumption].
@@ -393,6 +432,9 @@ Proof.
   - inv_some S. rewrite wlog_remove, forallb_app, A. destruct (fs_has l (wfs w)); cbn; [rewrite T|]; reflexivity.
   - destruct (version_ok runnable l w); inv_some S; exact A.
   - destruct (fs_has l (wfs w)); inv_some S; exact A.
+  - apply andb_true_iff in T. destruct T as [T1 T2].
+    destruct (fs_has guard (wfs w)); inv_some S; [|exact A].
+    rewrite wlog_move, forallb_app, A. destruct (fs_has src (wfs w)); cbn; [rewrite T2|]; reflexivity.
   - destruct (fs_has SysUnit (wfs w)) eqn:H; inv_some S; [|exact A].
     rewrite wlog_call, wlog_remove, H, !forallb_app, A. reflexivity.
   - inv_some S. cbn [remove_backup_dir emit set_fs wlog]. rewrite forallb_app, A. reflexivity.
@@ -486,7 +528,8 @@ Qed.
 (* the individual commands                                                               *)
 (* ------------------------------------------------------------------------------------ *)
 Ltac fsn :=
-  repeat progress (unfold fs_has, version_ok; rewrite ?wfs_call, ?get_copy, ?get_remove, ?get_remove_backup_dir, ?wfs_banner,
+  repeat progress (unfold fs_has, version_ok; rewrite ?wfs_call, ?get_copy, ?get_remove, ?get_move, ?get_remove_backup_dir, ?wfs_banner,
+            ?wrunning_move, ?wenabled_move,
             ?wrunning_copy, ?wenabled_copy, ?wrunning_remove, ?wenabled_remove,
             ?wrunning_call, ?wenabled_call, ?wrunning_banner, ?wenabled_banner).
 
@@ -498,23 +541,16 @@ Lemma backup_get w l :
   | BakEbpf => match fs_get SysEbpf (wfs w) with Some f => Some f | None => fs_get BakEbpf (wfs w) end
   | BakExe => match fs_get SysExe (wfs w) with Some f => Some f | None => fs_get BakExe (wfs w) end
   | BakUnit => match fs_get SysUnit (wfs w) with Some f => Some f | None => fs_get BakUnit (wfs w) end
+  | BakTmp => match fs_get SysExe (wfs w) with Some _ => None | None => fs_get BakTmp (wfs w) end
   | _ => fs_get l (wfs w)
   end.
 Proof.
-  unfold exec. cbn [script backup_ops run_ops step_op]. fsn.
-  cbn [loc_eqb].
-  destruct (fs_get SysCfg (wfs w)), (fs_get SysEbpf (wfs w)), (fs_get SysExe (wfs w)), (fs_get SysUnit (wfs w));
-    destruct l; cbn [loc_eqb]; reflexivity.
-Qed.
-
-Lemma backup_service w :
-  wrunning (exec runnable fails Backup w) = wrunning w /\ wenabled (exec runnable fails Backup w) = wenabled w /\
-  forallb (fun e => match e with ECall _ => false | _ => true end) (step_events runnable fails Backup w) = true.
-Proof.
-  unfold step_events, exec. cbn [script backup_ops run_ops step_op]. fsn.
-  repeat split; try reflexivity.
-  rewrite !wlog_copy. cbn [banner log_tool clear_log wlog app].
-  repeat match goal with |- context [if ?b then _ else _] => destruct b end; reflexivity.
+  destruct (fs_get SysExe (wfs w)) eqn:He; destruct (fs_get SysCfg (wfs w)) eqn:Hc;
+    destruct (fs_get SysEbpf (wfs w)) eqn:Hb; destruct (fs_get SysUnit (wfs w)) eqn:Hu;
+    unfold exec; cbn [script backup_ops run_ops step_op]; unfold fs_has; fsn;
+    rewrite ?He, ?Hc, ?Hb, ?Hu; cbn [loc_eqb]; rewrite ?He, ?Hc, ?Hb, ?Hu; cbn [run_ops];
+    fsn; rewrite ?He, ?Hc, ?Hb, ?Hu; cbn [loc_eqb]; rewrite ?He, ?Hc, ?Hb, ?Hu; cbn [loc_eqb];
+    destruct l; cbn [loc_eqb]; rewrite ?He, ?Hc, ?Hb, ?Hu; reflexivity.
 Qed.
 
 (* RESTORE without a backup is the identity, the tool's own log aside *)
@@ -743,11 +779,18 @@ Qed.
 (* crash points inside backup                                                            *)
 (* ------------------------------------------------------------------------------------ *)
 Lemma backup_crash_no_marker j w :
-  (j <= 2)%nat -> fs_get BakExe (wfs w) = None -> fs_get BakExe (wfs (backup_crash runnable fails j w)) = None.
+  (j <= 4)%nat -> fs_get BakExe (wfs w) = None -> fs_get BakExe (wfs (backup_crash runnable fails j w)) = None.
 Proof.
   intros J H. unfold backup_crash.
-  destruct j as [|[|[|j]]]; [| | |lia]; cbn [firstn backup_ops run_ops step_op]; fsn; cbn [loc_eqb];
+  destruct j as [|[|[|[|[|j]]]]]; [| | | | |lia]; cbn [firstn backup_ops run_ops step_op]; fsn; cbn [loc_eqb];
     repeat match goal with |- context [match ?x with Some _ => _ | None => _ end] => destruct x end; exact H.
+Qed.
+
+Lemma backup_crash_complete j w :
+  (5 <= j)%nat -> backup_crash runnable fails j w = exec runnable fails Backup w.
+Proof.
+  intros J. unfold backup_crash, exec. cbn [script].
+  do 5 (destruct j as [|j]; [lia|]). unfold backup_ops. cbn [firstn]. destruct j; reflexivity.
 Qed.
 
 Lemma refused_when_no_marker d w1 :
@@ -758,58 +801,34 @@ Proof.
   rewrite install_sys_only by reflexivity. rewrite H. reflexivity.
 Qed.
 
-(* backup died before it began to save the executable (after 0, 1 or 2 complete copies, possibly
-   with an arbitrary file at the destination of the copy in flight): after install, restore refuses
-   -- it changes nothing but its own log *)
-Lemma backup_cut_refused j w d :
-  (j <= 2)%nat -> fs_get BakExe (wfs w) = None ->
+(* EVERY cut point of backup, from an installed version with no backup marker yet: after install,
+   restore either refuses (it changes nothing but its own log) or reinstates the four files *)
+Lemma backup_cut_safe j w d :
+  installed runnable w = true -> fs_get BakExe (wfs w) = None ->
   let w1 := backup_crash runnable fails j w in
-  exec runnable fails (Restore d) (exec runnable fails Install w1) = log_tool (Restore d) (exec runnable fails Install w1).
-Proof. intros J H w1. apply refused_when_no_marker. apply backup_crash_no_marker; assumption. Qed.
-
-Lemma backup_cut_inflight_refused j w d l f :
-  (j <= 2)%nat -> fs_get BakExe (wfs w) = None -> l = BakCfg \/ l = BakEbpf ->
-  let w1 := inflight l f (backup_crash runnable fails j w) in
-  exec runnable fails (Restore d) (exec runnable fails Install w1) = log_tool (Restore d) (exec runnable fails Install w1).
-Proof.
-  intros J H L w1. apply refused_when_no_marker. subst w1. unfold inflight. cbn [set_fs wfs].
-  rewrite fs_get_set. destruct L as [-> | ->]; cbn [loc_eqb]; apply backup_crash_no_marker; assumption.
-Qed.
-
-Lemma same_file_refl o : same_file o o = true.
-Proof. destruct o as [[m x]|]; cbn; [|reflexivity]. rewrite N.eqb_refl, sbeq_refl. reflexivity. Qed.
-Lemma same_data_refl f : same_data (Some f) (Some f) = true.
-Proof. cbn. apply sbeq_refl. Qed.
-
-(* every crash state of backup between two copies, from an installed version with no backup yet:
-   outside the known class, restore after install either refuses or reinstates the four files *)
-Lemma backup_cut_outside_class j w d :
-  (j <= 4)%nat -> installed runnable w = true -> no_backup w = true ->
-  let w1 := backup_crash runnable fails j w in
-  KnownClass_C17_backup_cut w w1 = false ->
   let w2 := exec runnable fails Install w1 in
   let w3 := exec runnable fails (Restore d) w2 in
   w3 = log_tool (Restore d) w2 \/
   ((forall l, In l sys_locs -> fs_get l (wfs w3) = fs_get l (wfs w)) /\
    ((forall v l, fails v l = false) -> wrunning w3 = true /\ wenabled w3 = true)).
 Proof.
-  intros J I NB w1 K w2 w3.
-  assert (NE : fs_get BakExe (wfs w) = None /\ fs_get BakCfg (wfs w) = None /\
-               fs_get BakEbpf (wfs w) = None /\ fs_get BakUnit (wfs w) = None).
-  { unfold no_backup, bak_locs, fs_has in NB. cbn [forallb] in NB.
-    destruct (fs_get BakExe (wfs w)); [discriminate|]. destruct (fs_get BakCfg (wfs w)); [discriminate|].
-    destruct (fs_get BakEbpf (wfs w)); [discriminate|]. destruct (fs_get BakUnit (wfs w)); [discriminate|]. auto. }
-  destruct NE as [N1 [N2 [N3 N4]]].
-  destruct j as [|[|[|[|[|j]]]]]; [| | | | |lia].
-  - left. apply (backup_cut_refused 0 w d); [lia|exact N1].
-  - left. apply (backup_cut_refused 1 w d); [lia|exact N1].
-  - left. apply (backup_cut_refused 2 w d); [lia|exact N1].
-  - exfalso. destruct (installed_inv w I) as [e [c [b [u [He [Hc [Hb [Hu Hr]]]]]]]].
-    revert K. subst w1. unfold KnownClass_C17_backup_cut, backup_complete, backup_crash, fs_has.
-    cbn [firstn backup_ops run_ops step_op]. fsn. cbn [loc_eqb].
-    rewrite ?He, ?Hc, ?Hb, ?Hu, ?N1, ?N2, ?N3, ?N4. cbn [loc_eqb]. rewrite ?He, ?Hc, ?Hb, ?Hu, ?N1, ?N2, ?N3, ?N4.
-    rewrite !same_data_refl. cbn [same_file andb negb]. rewrite ?andb_false_r. cbn. discriminate.
-  - right. exact (reversible d w I).
+  intros I N w1 w2 w3. destruct (Nat.le_gt_cases j 4) as [J|J].
+  - left. apply refused_when_no_marker. apply backup_crash_no_marker; assumption.
+  - right. subst w3 w2 w1. rewrite backup_crash_complete by lia. exact (reversible d w I).
+Qed.
+
+(* ... also when the tool died INSIDE a copy: whatever file sits at the destination of the copy in
+   flight (configuration, eBPF object, unit file or the temporary name of the executable -- the
+   final name of the executable is never the destination of a copy), restore refuses *)
+Lemma backup_cut_inflight_refused j w d l f :
+  (j <= 4)%nat -> fs_get BakExe (wfs w) = None -> l <> BakExe ->
+  let w1 := inflight l f (backup_crash runnable fails j w) in
+  exec runnable fails (Restore d) (exec runnable fails Install w1) = log_tool (Restore d) (exec runnable fails Install w1).
+Proof.
+  intros J H L w1. apply refused_when_no_marker. subst w1. unfold inflight. cbn [set_fs wfs].
+  rewrite fs_get_set. destruct (loc_eqb BakExe l) eqn:E.
+  - apply loc_eqb_eq in E. congruence.
+  - apply backup_crash_no_marker; assumption.
 Qed.
 
 (* the same after any history: whatever commands ran before, once a version is installed the
@@ -968,17 +987,19 @@ Proof.
   intros l [<-|[<-|[<-|[<-|[]]]]]; vm_compute; reflexivity.
 Qed.
 
-(* a backup cut after the executable was saved (before the unit file): the known class, and what
-   restore then does -- the unit file stays the newer one, exit 1, service stopped *)
-Lemma backup_cut_refuted :
-  exists w, installed standin_runnable w = true /\ no_backup w = true /\
-    let w1 := backup_crash standin_runnable never_fails 3 w in
-    KnownClass_C17_backup_cut w w1 = true /\
-    let w3 := exec standin_runnable never_fails (Restore true) (exec standin_runnable never_fails Install w1) in
-    fs_get SysUnit (wfs w3) <> fs_get SysUnit (wfs w) /\ fs_get SysExe (wfs w3) = fs_get SysExe (wfs w) /\
-    wrunning w3 = false /\
-    exit_code standin_runnable never_fails (Restore true) (exec standin_runnable never_fails Install w1) = 1.
-Proof. exists ex_installed. vm_compute. repeat split; try discriminate. Qed.
+(* why the order matters (the code before /repo d891b48 saved config, eBPF object, EXECUTABLE, unit
+   file, the executable directly under its final name): cut after three copies, restore accepted
+   the torso, put three files back, failed on the unit file (exit 1) and never started the service *)
+Definition old_backup_ops : list op :=
+  [OCopy SysCfg BakCfg; OCopy SysEbpf BakEbpf; OCopy SysExe BakExe; OCopy SysUnit BakUnit].
+Lemma old_backup_order_unsafe :
+  let w1 := run_ops standin_runnable never_fails (firstn 3 old_backup_ops) ex_installed in
+  let w2 := exec standin_runnable never_fails Install w1 in
+  let w3 := exec standin_runnable never_fails (Restore true) w2 in
+  fs_get SysUnit (wfs w3) <> fs_get SysUnit (wfs ex_installed) /\
+  fs_get SysExe (wfs w3) = fs_get SysExe (wfs ex_installed) /\ wrunning w3 = false /\
+  exit_code standin_runnable never_fails (Restore true) w2 = 1.
+Proof. vm_compute. repeat split; discriminate. Qed.
 
 (* the layout for the setup directory used by the harness, and the tie between the two spellings
    of the unit file name in the sources (linux.rs SERVICE_CONFIG_FILE_NAME vs "{SERVICE_NAME}.service") *)
